@@ -30,3 +30,8 @@ package discover
 //@   loop 1 invariant forall g int :: 0 <= g && g < len(resp) ==> 1 <= len(resp[g]) && len(resp[g]) <= rangeindex + 1
 //@   loop 2 invariant len(resp) == len(libs) && len(resp) <= ghost_oi + 1 && ghost_oi + 1 < len(l) && ghost_oi >= -1
 //@   loop 2 invariant forall g int :: 0 <= g && g < len(resp) ==> 1 <= len(resp[g]) && len(resp[g]) <= ghost_oi + 1
+// two groups never carry the same runner name (library[_variant]): a new group is opened only when
+// the search over ALL existing names found none equal to the requested one
+//@   loop 1 invariant forall a int, b int :: 0 <= a && a < b && b < len(libs) ==> libs[a] != libs[b]
+//@   loop 2 invariant forall a int, b int :: 0 <= a && a < b && b < len(libs) ==> libs[a] != libs[b]
+//@   loop 2 invariant forall m int :: 0 <= m && m <= rangeindex ==> libs[m] != requested
